@@ -9,7 +9,7 @@ use proptest::collection::vec;
 use proptest::prelude::*;
 use serde::{Deserialize, Serialize};
 use serde_json::{json, Value};
-use std::collections::BTreeMap;
+use std::collections::{BTreeMap, BTreeSet};
 
 #[derive(Debug, Clone, Copy, Serialize, Deserialize, PartialEq)]
 pub enum FileSel {
@@ -301,7 +301,17 @@ pub fn check(case: &Case, w: usize) -> CheckResult {
                 let _ = f.set_modified(mt);
             }
         }
-        let snap = bb::snapshot_dir(&out_dir);
+        // every third tamper meets a tree without an output directory (fresh checkout)
+        if ti % 3 == 1 {
+            let _ = std::fs::remove_dir_all(&out_dir);
+        }
+        let top_level = |env: &Env| -> BTreeSet<String> {
+            std::fs::read_dir(env.path(""))
+                .map(|rd| rd.flatten().map(|e| e.file_name().to_string_lossy().to_string()).collect())
+                .unwrap_or_default()
+        };
+        let _ = std::fs::remove_file(&render_path);
+        let snap = (out_dir.exists(), top_level(&env), bb::snapshot_dir(&out_dir));
         // two APIs per tamper, rotating through all of them
         for k in 0..2 {
             let api = &APIS[(ti * 2 + k + case.tampers.len()) % APIS.len()];
@@ -310,7 +320,7 @@ pub fn check(case: &Case, w: usize) -> CheckResult {
             let api_index = (ti * 2 + k + case.tampers.len()) % APIS.len();
             let o = invoke(&mut env, api_index);
             let started = env.traces().len();
-            let snap2 = bb::snapshot_dir(&out_dir);
+            let snap2 = (out_dir.exists(), top_level(&env), bb::snapshot_dir(&out_dir));
             if render_path.exists() {
                 std::fs::write(&path, orig).ok();
                 return viol("c17.tampered.action", format!("`{}` wrote its output file after tamper {:?} {:?} {:?}", api.args.join(" "), t.file, t.kind, t.offset));
@@ -338,7 +348,14 @@ pub fn check(case: &Case, w: usize) -> CheckResult {
                 std::fs::write(&path, orig).ok();
                 return viol(
                     "c17.tampered.action",
-                    format!("`{}` was rejected after tamper {} but still acted ({} helpers started, out dir changed: {})", api.args.join(" "), off_desc, started, snap != snap2),
+                    format!(
+                        "`{}` was rejected after tamper {} but still acted ({} helpers started, output directory or top-level entries changed: {}; new entries {:?})",
+                        api.args.join(" "),
+                        off_desc,
+                        started,
+                        snap != snap2,
+                        snap2.1.difference(&snap.1).collect::<Vec<_>>()
+                    ),
                 );
             }
         }
@@ -429,7 +446,7 @@ pub fn run(ctx: &mut Ctx) {
     ctx.rule = "a valid source configuration (2-6 generated targets, or 60-300 targets so that the generated file spans several 8 KiB buffers) passed through the real `config generate`; \
 the source file is the JSON document or a script in another encoding (Latin-1 bytes, incomplete multi-byte tail) around it; first every API is exercised on the untouched triple (all must succeed, run must start its helpers); then single tampers: file in {source, generated, lockfile} x {XOR a non-zero mask into one byte, \
 truncate, append (text, NUL bytes, bytes repeating the content 512/4096/8192/16384/65536 positions earlier), cut 1-3 tail bytes}, 30% with the file's modification time restored afterwards x offset (first, last, uniformly random, within 3 bytes of 8192/16384/65536); plus every single-byte edit of one small triple. oracle per tamper (2 of 13 APIs, rotating): \
-non-zero exit, error JSON on stderr, no helper started, out dir byte-identical. lockfile edits that leave the parsed checksum intact are not judged. \
+non-zero exit, error JSON on stderr, no helper started, out dir byte-identical (a third of the tampers meet a tree without an output directory: none may appear), no new top-level entry in the repository. lockfile edits that leave the parsed checksum intact are not judged. \
 non-trivial = tamper offset >= 8192, or tamper in source/lockfile; distinct by SHA-256"
         .to_string();
     ctx.assumptions = vec!["APIs: config show, target show -g, analyze, run, checkpoint show/update/delete, result show, log show, out delete (with and without --all), target render, log tail (accepted = listening on the log port)".into()];
